@@ -70,6 +70,16 @@ Theorem C08_entry_exact : forall ads s r e m,
 Proof. exact index_entry_exact. Qed.
 Print Assumptions C08_entry_exact.
 
+(** reads with N (the fallback; after the repair of F8c): what the index reports for an affix that contains N is
+    a match of that adapter against the affix which covers the whole affix, with that match's own error count --
+    which by C01_errors_exact is the exact distance of the removed affix *)
+Theorem C08_n_fallback_covers : forall ads affix r e sc,
+  lookup_with_n ads affix = Some (r, e, sc) ->
+  exists a mt, nth_error ads r = Some a /\ match_to (thr_of (ia_thr a)) (ia_ad a) affix = Some mt /\
+               rstop mt - rstart mt = zlen affix /\ e = merrors mt /\ sc = mscore mt.
+Proof. exact lookup_with_n_covers. Qed.
+Print Assumptions C08_n_fallback_covers.
+
 (** non-vacuity: two 3' adapters of different lengths with indels, a read that is exactly the
     shorter adapter (the F8a input): the hypotheses hold and the whole read is reported as a match *)
 Definition ex_ads : list iad :=
